@@ -180,6 +180,31 @@ structure Args.Roles (role : P → Role) (a : Args P) : Prop where
   out1 : ∀ o, a.out1 = some o → role o = .output
   out2 : ∀ o, a.out2 = some o → role o = .output
 
+/-- the zone routine a fast score routine calls when it is given a zone file -/
+def zoneRoutine : Routine → Option Routine
+  | .lrmsdFast _ => some .lzone
+  | .irmsdFast _ => some .izone
+  | _ => none
+
+/-- the requested outputs of one call -/
+def Args.outs (a : Args P) : P → Prop := fun o => a.out1 = some o ∨ a.out2 = some o
+
+/-- **the concurrent scenario of the property**: `calls` are computations started in one working directory `fs₀`;
+    each is any routine without a zone file, or a fast score routine (`zr` = l-zone or i-zone flavour) given the
+    *shared* zone file `cache` over the common reference `ref` (the documented decoy-ranking loop).
+    Side conditions: structures are inputs (nobody writes them); `mkstemp` gives every call a name that is new
+    (absent, different from everybody else's, not an input, not the cache); requested outputs are not inputs, not the
+    cache, not a temp name; a zone that is written can be read back (`parse ∘ render = id`, C09). -/
+structure SharedZoneRun (W : Work L Z R) (fs₀ : FS P L) (isInput : P → Prop) (ref cache : P) (zr : Routine)
+    (calls : List (Routine × Args P)) : Prop where
+  roundtrip : ∀ z, W.parse (W.render z) = .ok z
+  cache_not_input : ¬ isInput cache
+  inputs : ∀ c ∈ calls, isInput c.2.decoy ∧ isInput c.2.ref
+  zone : ∀ c ∈ calls, c.2.zone = none ∨ (c.2.zone = some cache ∧ zoneRoutine c.1 = some zr ∧ c.2.ref = ref)
+  tmp_fresh : ∀ c ∈ calls, fs₀ c.2.tmp = none ∧ ¬ isInput c.2.tmp ∧ c.2.tmp ≠ cache
+  tmp_distinct : ∀ (i j : Nat) (ci cj : Routine × Args P), calls[i]? = some ci → calls[j]? = some cj → i ≠ j → ci.2.tmp ≠ cj.2.tmp
+  outs : ∀ c ∈ calls, ∀ o, c.2.outs o → ¬ isInput o ∧ o ≠ cache ∧ ∀ c' ∈ calls, o ≠ c'.2.tmp
+
 /-! ### the writer of the pinned tree (kept for the regression theorem): zone file written in place -/
 
 /-- old `compute_?zone(save_file=True)`: `f = open(filename,'w')`, one `write` per zone line, `close` -/
